@@ -211,18 +211,20 @@ impl<Db: Database> StorageManager<Db> {
             ))),
         }?;
 
-        // update the cache
-        if let Some(cache) = &self.cache {
-            cache.batch_put(&records).await;
-        }
-
         // Write to the database
         self.tic_toc(
             METRIC_WRITE_TIME,
-            self.db.batch_set(records, DbSetState::TransactionCommit),
+            self.db
+                .batch_set(records.clone(), DbSetState::TransactionCommit),
         )
         .await?;
         self.increment_metric(METRIC_BATCH_SET);
+
+        // update the cache, only once the database has accepted the records (a failed write
+        // must not leave records in the cache which the database does not hold)
+        if let Some(cache) = &self.cache {
+            cache.batch_put(&records).await;
+        }
         Ok(num_records as u64)
     }
 
@@ -264,14 +266,15 @@ impl<Db: Database> StorageManager<Db> {
             return Ok(());
         }
 
-        // update the cache
+        // write to the database
+        self.tic_toc(METRIC_WRITE_TIME, self.db.set(record.clone()))
+            .await?;
+        self.increment_metric(METRIC_SET);
+
+        // update the cache, only once the database has accepted the record
         if let Some(cache) = &self.cache {
             cache.put(&record).await;
         }
-
-        // write to the database
-        self.tic_toc(METRIC_WRITE_TIME, self.db.set(record)).await?;
-        self.increment_metric(METRIC_SET);
         Ok(())
     }
 
@@ -288,18 +291,18 @@ impl<Db: Database> StorageManager<Db> {
             return Ok(());
         }
 
-        // update the cache
-        if let Some(cache) = &self.cache {
-            cache.batch_put(&records).await;
-        }
-
         // Write to the database
         self.tic_toc(
             METRIC_WRITE_TIME,
-            self.db.batch_set(records, DbSetState::General),
+            self.db.batch_set(records.clone(), DbSetState::General),
         )
         .await?;
         self.increment_metric(METRIC_BATCH_SET);
+
+        // update the cache, only once the database has accepted the records
+        if let Some(cache) = &self.cache {
+            cache.batch_put(&records).await;
+        }
         Ok(())
     }
 
